@@ -201,10 +201,92 @@ def case_lqr(H, n, mdim, Tn, ltv, with_c1, nominal, second_solve, mpc=False):
         H.reach(name + '/reach', hyp)
 
 
+def case_lqr_config(H, n, mdim, Tn, B):
+    """configurations of one LQR problem, differential against the single-item solve that the other cases verify:
+    (a) a batch of B independent problems: item k of the batched result == the solve of problem k alone;
+    (b) a second solve on the same LQR object after the caller updated its nominal-input buffer IN PLACE == a solve on a fresh object
+        with a fresh tensor holding the same values (no state may be carried between calls by tensor identity)."""
+    name = 'C14/LQR/config/n=%d,m=%d,T=%d,batch=%d' % (n, mdim, Tn, B)
+    nsc = n + mdim
+
+    def tensors(gen):
+        r = (lambda *s: torch.randn(*s, dtype=DT, generator=gen) * 0.5)
+        A, Bm, x0, p, un, un2 = r(B, n, n), r(B, n, mdim), r(B, n), r(B, Tn, nsc), r(B, Tn, mdim), r(B, Tn, mdim)
+        Qd = torch.eye(nsc, dtype=DT).repeat(B, Tn, 1, 1) * torch.linspace(1.0, 2.0, nsc, dtype=DT).view(1, 1, nsc, 1)
+        return A, Bm, x0, p, un, un2, (Qd + Qd.mT) / 2
+
+    def solve(A, Bm, x0, p, Q, un, lqr=None):
+        z = lambda *s: torch.zeros(*s, dtype=DT)
+        b = A.shape[0]
+        if lqr is None:
+            lqr = pp.module.LQR(pp.module.LTI(A, Bm, z(b, n, n), z(b, n, mdim)), Q, p, Tn)
+        x, u, c = lqr(x0, 1, u_traj=un)
+        return lqr, x, u, c
+
+    def scenario(A, Bm, x0, p, Q, un, un2):
+        pairs = []
+        _, x, u, c = solve(A, Bm, x0, p, Q, None)
+        for k in range(B):
+            _, xk, uk, ck = solve(A[k:k + 1], Bm[k:k + 1], x0[k:k + 1], p[k:k + 1], Q[k:k + 1], None)
+            pairs += [('batch item %d: states' % k, x[k], xk[0]), ('batch item %d: inputs' % k, u[k], uk[0]), ('batch item %d: cost' % k, c[k].reshape(1), ck.reshape(-1)[:1])]
+        buf = un.clone()
+        lqr, _, _, _ = solve(A, Bm, x0, p, Q, buf)
+        with torch.no_grad():
+            buf.copy_(un2)                        # the caller re-uses its buffer (receding-horizon pattern)
+        _, x2, u2, c2 = solve(A, Bm, x0, p, Q, buf, lqr=lqr)
+        _, x3, u3, c3 = solve(A, Bm, x0, p, Q, un2.clone())
+        pairs += [('second solve, nominal buffer updated in place: states', x2, x3), ('second solve, nominal buffer updated in place: inputs', u2, u3),
+                  ('second solve, nominal buffer updated in place: cost', c2.reshape(-1), c3.reshape(-1))]
+        return pairs
+
+    def prog(m):
+        gen = torch.Generator().manual_seed(31)
+        A, Bm, x0, p, un, un2, Q = tensors(gen)
+        for nm, t in (('A', A), ('B', Bm), ('x', x0), ('p', p), ('u', un), ('v', un2)):
+            m.symbolic(t, nm)
+        return [(lab, m.full_terms(a_), m.full_terms(b_)) for lab, a_, b_ in scenario(A, Bm, x0, p, Q, un, un2)]
+
+    def replay(model):
+        gen = torch.Generator().manual_seed(31)
+        A, Bm, x0, p, un, un2, Q = tensors(gen)
+        for nm, t in (('A', A), ('B', Bm), ('x', x0), ('p', p), ('u', un), ('v', un2)):
+            flat = t.reshape(-1)
+            for i in range(flat.numel()):
+                if (nm + str(i)) in model:
+                    flat[i] = float(model[nm + str(i)])
+        try:
+            pairs = scenario(A, Bm, x0, p, Q, un, un2)
+        except Exception as e:
+            return True, 'LQR raised %s: %s (n=%d, m=%d, T=%d, batch=%d)' % (type(e).__name__, str(e)[:120], n, mdim, Tn, B)
+        worst, wl = 0.0, ''
+        for lab, a_, b_ in pairs:
+            if a_.shape != b_.shape:
+                return True, '%s: shapes %s vs %s' % (lab, tuple(a_.shape), tuple(b_.shape))
+            e = (a_ - b_).abs().max().item()
+            if e > worst:
+                worst, wl = e, lab
+        return worst > 1e-8, '%s differs by %.3g' % (wl, worst)
+
+    def on_raise(ctx, e):
+        H.absorb(ctx)
+        ok, det = replay({k: v for k, v in ctx.env.items() if isinstance(v, float)})
+        if ok:
+            H.violation('C14/LQR/config', '%s: %s' % (name, det), {'case': name})
+        else:
+            H.engine_error(name, e)
+
+    for ctx, res in run_paths(H, name, prog, max_paths=8, raised=on_raise):
+        hyp = H.hyps_of(ctx)
+        for lab, a_, b_ in res:
+            H.prove('%s/path%d/%s/same-length' % (name, H.paths, lab), [], z3.BoolVal(len(a_) == len(b_)), replay=replay, key='C14/LQR/config')
+            for i, (l, r) in enumerate(zip(a_, b_)):
+                H.same('%s/path%d/%s[%d]' % (name, H.paths, lab, i), hyp, l, r, ctx, replay=replay, key='C14/LQR/config', timeout=15)
+
+
 def run(H):
     H.assumptions += ['exact real arithmetic', 'Q_t symmetric positive definite (Cholesky-parametrised): stationarity is then global optimality',
                       'torch.linalg.cholesky by its contract (L L^T = Quu on the non-raising path)']
-    H.bounds += ['batch 1; (n,m,T) in {(1,1,1),(1,1,2),(2,1,2)} quick, +(1,1,3),(1,2,2),(2,2,2) thorough', 'LTV: matrices indexed by the system clock',
+    H.bounds += ['batch 1 for the optimality clauses (batches of 2-3 problems and a re-used nominal buffer differentially against single solves); (n,m,T) in {(1,1,1),(1,1,2),(2,1,2)} quick, +(1,1,3),(1,2,2),(2,2,2) thorough', 'LTV: matrices indexed by the system clock',
                  'second solve on the same system object (history of length 2)', 'MPC: linear system, 2 stepper iterations']
     cases = [(1, 1, 1, False, False, False, False), (1, 1, 2, False, True, True, False), (1, 1, 2, True, False, False, False),
              (1, 1, 2, True, False, False, True), (1, 1, 2, False, False, False, True), (2, 1, 2, False, True, False, False)]
@@ -216,6 +298,12 @@ def run(H):
         except Exception as e:
             import traceback; traceback.print_exc()
             H.engine_error('lqr', e)
+    for (n, mdim, Tn, B) in ([(1, 1, 2, 2)] if H.quick else [(1, 1, 2, 2), (2, 1, 2, 2), (1, 2, 2, 3)]):
+        try:
+            case_lqr_config(H, n, mdim, Tn, B)
+        except Exception as e:
+            import traceback; traceback.print_exc()
+            H.engine_error('lqr-config', e)
     try:
         case_lqr(H, 1, 1, 2, False, False, False, False, mpc=True)
     except Exception as e:
